@@ -1,3 +1,105 @@
-Require Import Base Opcode Tables Ops.
-Example placeholder_C18 : True. Proof. exact I. Qed.
-Print Assumptions placeholder_C18.
+(* C18 — Scalar operators obey their algebra on the whole int64/bool domain.
+   Only statements here; each is closed by `exact <lemma>` (proofs in Proofs/OpsArith.v). *)
+Require Import Base Opcode Tables Ops OpsArith.
+Open Scope Z_scope.
+
+(* arithmetic: exact left fold over Z, wrapped into int64 (two's complement) *)
+Theorem C18_arith_ring_fold : forall m v w vs,
+  m = AAdd \/ m = ASub \/ m = AMul -> in_i64 v = true ->
+  arith m (ints (v :: w :: vs)) = Ok (VInt (wrap64 (fold_left (zop m) (w :: vs) v))).
+Proof. exact arith_ring_fold. Qed.
+
+(* division / modulo: truncated left fold; a zero divisor anywhere is an error (the model has no panic outcome:
+   MinInt64 / -1 wraps to MinInt64) *)
+Theorem C18_arith_div_fold : forall m v w vs, m = ADiv \/ m = AMod ->
+  arith m (ints (v :: w :: vs)) =
+    if existsb (Z.eqb 0) (w :: vs) then Err (EExec (div_name m)) else Ok (VInt (divfold m v (w :: vs))).
+Proof. exact arith_div_fold. Qed.
+Theorem C18_div_zero_anywhere : forall m v pre post, m = ADiv \/ m = AMod ->
+  arith m (ints (v :: pre ++ 0 :: post)) = Err (EExec (div_name m)).
+Proof. exact arith_div_zero_anywhere. Qed.
+Theorem C18_arith_in_range : forall m v vs z, in_i64 v = true -> arith m (ints (v :: vs)) = Ok (VInt z) -> in_i64 z = true.
+Proof. exact arith_result_in_range. Qed.
+Theorem C18_arith_count : forall m ps, (length ps < 2)%nat -> arith m ps = Err (ECount (mname (amode_key m))).
+Proof. exact arith_count_error. Qed.
+Theorem C18_arith_ok_needs_ints : forall m ps r, arith m ps = Ok r -> (2 <= length ps)%nat /\ forallb is_int ps = true.
+Proof. exact arith_ok_needs_ints. Qed.
+Theorem C18_arith_errors_only : forall m ps e, arith m ps = Err e ->
+  e = ECount (mname (amode_key m)) \/ e = EType (mname (amode_key m)) \/ e = EExec (div_name m).
+Proof. exact arith_never_other_error. Qed.
+
+(* boolean folds *)
+Theorem C18_and_all : forall a b bs, logic LAnd (bools (a :: b :: bs)) = Ok (VBool (forallb (fun x => x) (a :: b :: bs))).
+Proof. exact logic_and_all. Qed.
+Theorem C18_or_any : forall a b bs, logic LOr (bools (a :: b :: bs)) = Ok (VBool (existsb (fun x => x) (a :: b :: bs))).
+Proof. exact logic_or_any. Qed.
+Theorem C18_xor_parity : forall a b bs, logic LXor (bools (a :: b :: bs)) = Ok (VBool (fold_left xorb (b :: bs) a)).
+Proof. exact logic_xor_parity. Qed.
+Theorem C18_logic_count : forall m ps, (length ps < 2)%nat -> logic m ps = Err (ECount (mname (lmode_key m))).
+Proof. exact logic_count_error. Qed.
+Theorem C18_logic_type : forall m ps, (2 <= length ps)%nat -> forallb is_bool ps = false -> logic m ps = Err (EType (mname (lmode_key m))).
+Proof. exact logic_type_error. Qed.
+Theorem C18_not : forall ps, logic_not ps =
+  match ps with [VBool b] => Ok (VBool (negb b)) | [_] => Err (EType (ss "not")) | _ => Err (ECount (ss "not")) end.
+Proof. exact not_spec. Qed.
+
+(* comparisons agree with the int64 order and with each other *)
+Theorem C18_cmp_order : forall m i j, cmp m [VInt i; VInt j] = Ok (VBool (
+  match m with CGt => Z.gtb i j | CLt => Z.ltb i j | CGe => Z.geb i j | CLe => Z.leb i j end)).
+Proof. exact cmp_order. Qed.
+Theorem C18_le_not_gt : forall i j, cmp CLe [VInt i; VInt j] = Ok (VBool (negb (i >? j))).
+Proof. exact cmp_le_not_gt. Qed.
+Theorem C18_ge_not_lt : forall i j, cmp CGe [VInt i; VInt j] = Ok (VBool (negb (i <? j))).
+Proof. exact cmp_ge_not_lt. Qed.
+Theorem C18_cmp_errors : forall m ps,
+  match ps with
+  | [VInt _; VInt _] => True
+  | [_; _] => cmp m ps = Err (EType (mname (cmode_key m)))
+  | _ => cmp m ps = Err (ECount (mname (cmode_key m)))
+  end.
+Proof. exact cmp_errors. Qed.
+Theorem C18_ne_is_not_eq : forall a b, comparable a = true -> comparable b = true ->
+  exists r, cmp_eq [a; b] = Ok (VBool r) /\ cmp_ne [a; b] = Ok (VBool (negb r)).
+Proof. exact ne_is_not_eq. Qed.
+Theorem C18_eq_int : forall i j, cmp_eq [VInt i; VInt j] = Ok (VBool (i =? j)).
+Proof. exact eq_int_spec. Qed.
+Theorem C18_eq_nary : forall a ps, (1 <= length ps)%nat -> forallb comparable (a :: ps) = true ->
+  cmp_eq (a :: ps) = Ok (VBool (forallb (go_eq a) ps)).
+Proof. exact eq_nary. Qed.
+Theorem C18_eq_count : forall ps, (length ps < 2)%nat -> cmp_eq ps = Err (ECount (mname "equals")).
+Proof. exact eq_count_error. Qed.
+Theorem C18_ne_count : forall ps, length ps <> 2%nat -> cmp_ne ps = Err (ECount (mname "notEquals")).
+Proof. exact ne_count_error. Qed.
+Theorem C18_between : forall v a b,
+  cmp_between [VInt v; VInt a; VInt b] = Ok (VBool ((a <=? v) && (v <=? b))) /\
+  (exists x y, cmp CGe [VInt v; VInt a] = Ok (VBool x) /\ cmp CLe [VInt v; VInt b] = Ok (VBool y) /\
+               cmp_between [VInt v; VInt a; VInt b] = Ok (VBool (x && y))).
+Proof. exact between_spec. Qed.
+Theorem C18_between_errors : forall ps,
+  match ps with
+  | [VInt _; VInt _; VInt _] => True
+  | [_; _; _] => cmp_between ps = Err (EType (mname "between"))
+  | _ => cmp_between ps = Err (ECount (ss "between"))
+  end.
+Proof. exact between_errors. Qed.
+
+(* aliases: in the table regenerated from /repo/operator.go every alias has the opcode (= the same model function)
+   of its named form, every named form has its canonical opcode, and there is no other built-in name *)
+Theorem C18_alias_same : aliases_ok = true /\ canonical_ok = true /\ table_functional = true /\ no_other_names = true.
+Proof. exact alias_same. Qed.
+
+(* non-vacuity: concrete instances at the int64 extremes *)
+Example C18_ex_wrap : arith AAdd (ints [9223372036854775807; 1]) = Ok (VInt (-9223372036854775808)).
+Proof. reflexivity. Qed.
+Example C18_ex_minint_div : arith ADiv (ints [-9223372036854775808; -1]) = Ok (VInt (-9223372036854775808)).
+Proof. reflexivity. Qed.
+Example C18_ex_div0_late : arith AMod (ints [7; 3; 0; 2]) = Err (EExec (ss "mod")).
+Proof. reflexivity. Qed.
+Example C18_ex_between_inverted : cmp_between [VInt 15; VInt 10; VInt 1] = Ok (VBool false).
+Proof. reflexivity. Qed.
+
+Print Assumptions C18_arith_ring_fold.
+Print Assumptions C18_arith_div_fold.
+Print Assumptions C18_eq_nary.
+Print Assumptions C18_between.
+Print Assumptions C18_alias_same.
